@@ -272,6 +272,41 @@ def run_moist_and_steps(ctx):
   return out
 
 
+def replay_equivariance(w):
+  """Native: explicit_terms of the real dry and moist classes commute with the mirror and a 3-step rotation on a random state with humidity,
+  temperature variation and a non-uniform surface pressure (the spectral actions are the ones validated against grid-space roll / flip)."""
+  jax = common.jx()
+  import jax.numpy as jnp
+  rng = np.random.RandomState(17)
+  msgs = []
+  g = common.make_grid(3, 4, 10, 7, 'gauss', 'real')
+  sig = common.sigma_levels('uneven', 3, 0)
+  oro = np.zeros(g.modal_shape)
+  for (m, trig, l) in tendency.canonical_modes(g):
+    oro[tendency.row_of(g, 'real', m, trig), l] = 0.05 * rng.randn()
+  for sym in (dict(s=0, mirror=True), dict(s=3, mirror=False)):
+    Ts, Tp = _field_actions(g, 'real', sym)
+    oro_T = (Ts @ oro.ravel()).reshape(oro.shape)
+    T, _ = _primitive_T(None, g, 'real', sym)
+    for cls in ('time', 'moist'):
+      tracers = ('specific_humidity',) if cls == 'moist' else ('q',)
+      eq = common.make_primitive(g, sig, 'linear', cls=cls, orography=oro)
+      eqT = common.make_primitive(g, sig, 'linear', cls=cls, orography=oro_T)
+      sp = tendency.primitive_space(eq, 'real', tracers=tracers)
+      st = tendency.primitive_state(sp, jnp.asarray(rng.randn(sp.n) * sp.scale * 0.3), with_time=True)
+      tr = dict(st.tracers)
+      if cls == 'moist':
+        tr['specific_humidity'] = tr['specific_humidity'].at[:, 0, 0].add(0.01 * np.sqrt(4 * np.pi))
+      st = type(st)(st.vorticity, st.divergence, st.temperature_variation, st.log_surface_pressure, st.sim_time, tr)
+      a = tendency.primitive_leaves(T(eq.explicit_terms(st)))
+      b = tendency.primitive_leaves(eqT.explicit_terms(T(st)))
+      ref = max(float(jnp.abs(v).max()) for v in a.values())
+      diffs = {k: float(jnp.abs(a[k] - b[k]).max()) / max(1.0, ref) for k in a}
+      if max(diffs.values()) > 1e-9:
+        msgs.append(f'{cls} equations, symmetry {sym}: relative |T f(x) - f_T(T x)| per field {diffs}')
+  return bool(msgs), ('; '.join(msgs[:3]) if msgs else 'explicit tendencies commute with the mirror and the rotation on the sampled dry / moist states')
+
+
 def run_step_terms(ctx):
   """Every integrator step is a term over {+, scalar*, F, G, G_inv}: the real step functions run on the LinComb
   domain, which raises on anything else."""
@@ -309,13 +344,16 @@ def clauses(tier, seed):
 
 
 def _symmetry_clauses():
-  from contracts import symmetry_contracts
-  return symmetry_contracts.clauses()
+  from contracts import equivariance_contracts, symmetry_contracts
+  eq = equivariance_contracts.clauses()
+  for c in eq:
+    c.replay = replay_equivariance
+  return symmetry_contracts.clauses() + eq
 
 
 MANIFEST = {
     'engine': 'pyvc+jxa+symx',
-    'technique': 'contract-based deductive: the elementary spectral operators (d/dlon in both layouts, both latitude-derivative recurrences, Laplacian / inverse / clipping) proved (anti-)commuting with every rotation and with the equatorial mirror from the real source for all sizes (pyvc array / row mode); intertwining/commutation matrix identities on complete bases; equivariance of nonlinear tendencies on the unisolvent degree-3 lattice (degree proved on the jaxpr); step equivariance by structural induction over the symbolically executed step functions',
+    'technique': 'contract-based deductive: explicit_terms of the dry, the moist and the shallow-water equations executed from the real source over abstract fields and proved equivariant under the equatorial mirror and under rotations by multilinear normal form (all fields, sizes, level counts), using the operator (anti-)commutation rules; the elementary spectral operators (d/dlon in both layouts, both latitude-derivative recurrences, Laplacian / inverse / clipping) proved (anti-)commuting with every rotation and with the equatorial mirror from the real source for all sizes (pyvc array / row mode); intertwining/commutation matrix identities on complete bases; equivariance of nonlinear tendencies on the unisolvent degree-3 lattice (degree proved on the jaxpr); step equivariance by structural induction over the symbolically executed step functions',
     'text': ('other: complete over fields/states at each configuration for linear parts and dry/shallow-water tendencies, deductive for the step functions '
              'given the layer-2 commutation, bounded over grids/rotations/level sets; moist tendencies and trajectories sampled.'),
     'note': 'trusted: A1/A2; that the transforms intertwine the grid-space and the spectral actions is a bounded numeric clause, so the all-size operator clauses carry to the model only through it; closed-form spectral actions validated against grid-space roll/flip (clause 1); jxa degree rules; lattice unisolvence.',
